@@ -65,6 +65,7 @@ class Injector:
         self.chmod_failed = False
         self.extra: List[str] = []
         self.siblings = [dest.name + ".meta"]     # other destinations written by the same caller (not under test)
+        self.bystanders: Dict[str, bytes] = {}    # durable files of OTHER writers that share the destination's name prefix
         self.target_fd = None
         self.dir_synced = False
 
@@ -96,6 +97,7 @@ class Injector:
             destc = None
         dcls = self.classify(destc)
         others = sorted(p.name for p in d.iterdir() if p.name != self.dest.name and not p.name.startswith("_")
+                        and p.name not in self.bystanders
                         and not any(p.name == sname or p.name.startswith(sname + ".") for sname in self.siblings))
         if not others:
             tcls = "none"
@@ -409,6 +411,15 @@ def run_plan(case) -> List[Tuple[str, str]]:
         statefile = str(Path(work) / "_state.json")
         crash = any(e["out"] == "crash" for e in h)
         inj = Injector(h, dest, new, old, statefile)
+        # bystanders: durable artefacts of other writers whose names start with the destination's name (rotated log
+        # generations, a snapshot sidecar) and an unrelated file; whatever happens to this write, they stay as they are
+        by = {dest.name + ".1": b"generation one\n", dest.name + ".2": b"generation two\n", "zz_unrelated.json": b"{}\n"}
+        if caller in ("bytes", "text", "json", "replace_only", "rewrite_jsonl"):
+            by[dest.name + ".meta"] = b'{"schema_version": "v1"}\n'
+            inj.siblings = []
+        for n_, c_ in by.items():
+            (d / n_).write_bytes(c_)
+        inj.bystanders = dict(by)
 
         def body():
             restore = _install(inj)
@@ -508,6 +519,16 @@ def run_plan(case) -> List[Tuple[str, str]]:
         if final["tmp"] != case["tmp"]:
             clause = "NoStrayTempAfterFailure" if case["tmp"] == "none" else "CallSequence"
             fails.append((clause, f"temp file after the run: {final['tmp']} {final['names']}, spec says {case['tmp']}"))
+        if outcome != "crashed" or True:
+            for n_, c_ in inj.bystanders.items():
+                try:
+                    now_ = (d / n_).read_bytes()
+                except FileNotFoundError:
+                    now_ = None
+                if now_ != c_:
+                    fails.append(("OtherFilesUntouched", f"bystander {n_!r} {'was deleted' if now_ is None else 'was changed'} by a write to {dest.name!r} "
+                                                         f"(writer {outcome})"))
+                    break
         # step-by-step state sequence
         spec_seq = [(e["site"], e["out"], e["tmp"], e["dest"]) for e in h]
         real_seq = [(o["site"], o["out"], o.get("tmp"), o.get("dest")) for o in inj.obs if o["out"] != "skipped"]
